@@ -270,6 +270,9 @@ def renderItem {lab σ} (prLabel : lab → Str) (prSig : σ → Str) : Item lab 
 
 def header (lead trail : Str) (name : Str) : Str := lead ++ '[' :: name ++ ']' :: trail
 
+/-- what is written between the brackets of a section header: `module` or `module:direction` -/
+def modName (m : Str) (d : Option Str) : Str := m ++ (match d with | some d => ':' :: d | none => [])
+
 def sectionLines : Section → List Str
   | .tcp lead trail resp items =>
     header lead trail (if resp then "tcp:response".toList else "tcp:request".toList) ::
@@ -279,7 +282,7 @@ def sectionLines : Section → List Str
       items.map (renderItem renderLabel printHttpSigL)
   | .mtu lead trail items => header lead trail "mtu".toList :: items.map (renderItem id natDigits)
   | .other lead trail m d items =>
-    header lead trail (m ++ (match d with | some d => ':' :: d | none => [])) ::
+    header lead trail (modName m d) ::
       items.map (renderItem renderLabel id)
 
 def docLines (d : Doc) : List Str := d.pre.map renderMisc ++ d.sections.flatMap sectionLines
@@ -317,10 +320,17 @@ def allMiscs (d : Doc) : List Misc := d.pre ++ d.sections.flatMap sectionMiscs
 def mapTable {lab lab' σ σ'} (f : lab → lab') (g : σ → σ') (t : List (lab × List σ)) : List (lab' × List σ') :=
   t.map fun (l, ss) => (f l, ss.map g)
 
+def miscClasses : Misc → List Str
+  | .classes _ cs => cs
+  | _ => []
+def miscUaOs : Misc → List (Str × Option Str)
+  | .uaOs _ rs => rs
+  | _ => []
+
 /-- the database a document denotes: everything written, in file order, under its section and label -/
 def flatten (d : Doc) : Db where
-  classes := (allMiscs d).flatMap fun | .classes _ cs => cs | _ => []
-  uaOs := (allMiscs d).flatMap fun | .uaOs _ rs => rs | _ => []
+  classes := (allMiscs d).flatMap miscClasses
+  uaOs := (allMiscs d).flatMap miscUaOs
   mtu := d.sections.flatMap fun | .mtu _ _ items => group items | _ => []
   tcpReq := d.sections.flatMap fun
     | .tcp _ _ false items => mapTable LabelL.toSig id (group items) | _ => []
